@@ -50,8 +50,18 @@ func (g *Gen) sinkInvoke(st *State, call *ssa.CallCommon, args []Val, result ssa
 			pl = "0"
 		}
 		g.assume(st, fmt.Sprintf("(and (<= %s %s) (<= %s (+ %s 64)) (=> (= %s 0) (>= %s 16)))", pl, ln, ln, pl, pl, ln))
+		if n, ok := g.hashSize[r]; ok {
+			// a hash object made by a known constructor (md5.New: 16 bytes ...): Sum appends exactly Size() bytes
+			g.assume(st, fmt.Sprintf("(= %s (+ %s %d))", ln, pl, n))
+		}
 		g.noteElemRange(st, nr, types.Typ[types.Byte])
 		g.setResult(result, Val{Ref: nr, Len: ln, Off: "0", Kind: "slice", Ty: rt.At(0).Type()})
+	case "Reset":
+		if recvT != "hash.Hash" {
+			return false
+		}
+		g.frameSink(st, r)
+		g.bufSetLen(st, r, "0") // the record starts again
 	default:
 		return false
 	}
